@@ -42,3 +42,7 @@ Lemma gen_synchronized_passes_lock :
   pickling_a_wrapper_passes_its_object_and_its_lock = true /\
   value_and_array_hand_lock_and_ctx_to_synchronized = true.
 Proof. repeat split; reflexivity. Qed.
+
+(* SynchronizedBase.__init__ keeps the lock it is given under the test the model uses: `if lock:` *)
+Lemma gen_wrapper_lock_test : G_sharedmem.wrapper_lock_test = SharedMem.wrapper_lock_test.
+Proof. reflexivity. Qed.
